@@ -12,3 +12,26 @@ Theorem C08_frame_partial :
   forall now st m r', m_round m <> r' -> res_same r' st (node_step now st (InMsg m)).
 Proof. exact board_message_frame. Qed.
 Print Assumptions C08_frame_partial.
+
+(* determinism over schedules (generic in the step function - the node model's handler of a board
+   message is one): two nodes started alike that consumed equally long prefixes of the board hold
+   the same state, however polls were batched and whatever was posted in between; a node replaying
+   the log from its initial state reaches the state of the node that followed it live *)
+Require Import Sys.Quiescence.
+Theorem C08_same_prefix_same_state :
+  forall (state msg : Type) (step : state -> msg -> state) (init : list state) sched i j si sj ni nj,
+  nth_error init i = Some si -> nth_error init j = Some sj -> si = sj ->
+  nth_error (nodes _ _ (run _ _ step init sched)) i = Some ni ->
+  nth_error (nodes _ _ (run _ _ step init sched)) j = Some nj ->
+  snd ni = snd nj -> fst ni = fst nj.
+Proof. exact same_prefix_same_state. Qed.
+Theorem C08_replay_reaches_live_state :
+  forall (state msg : Type) (step : state -> msg -> state) (init1 init2 : list state) sched1 sched2 i j s n1 n2 k,
+  nth_error init1 i = Some s -> nth_error init2 j = Some s ->
+  nth_error (nodes _ _ (run _ _ step init1 sched1)) i = Some n1 ->
+  nth_error (nodes _ _ (run _ _ step init2 sched2)) j = Some n2 ->
+  snd n1 = k -> snd n2 = k ->
+  firstn k (board _ _ (run _ _ step init1 sched1)) = firstn k (board _ _ (run _ _ step init2 sched2)) ->
+  fst n1 = fst n2.
+Proof. exact replay_reaches_live_state. Qed.
+Print Assumptions C08_replay_reaches_live_state.
